@@ -303,7 +303,9 @@ func ruleC14Decode(p *Prog, r *Result) {
 		}
 	}
 	pr.all("$decode argument must be a string", selectPaths(pr.paths, func(pa *Path) bool { return guardPol(pa, "kind", vP, "string") == -1 }), "ErrInvalidType", fails("ErrInvalidType", "a non-string $decode argument"))
-	pr.all("$decode host must be a map", selectPaths(pr.paths, func(pa *Path) bool { return guardPol(pa, "kind", vP, "string") == 1 && guardPol(pa, "kind", objP, "map") == -1 }), "ErrInvalidType", fails("ErrInvalidType", "a non-map host"))
+	pr.all("$decode host must be a map", selectPaths(pr.paths, func(pa *Path) bool {
+		return guardPol(pa, "kind", vP, "string") == 1 && guardPol(pa, "kind", objP, "map") == -1
+	}), "ErrInvalidType", fails("ErrInvalidType", "a non-map host"))
 	host := selectPaths(pr.paths, func(pa *Path) bool { return guardPol(pa, "kind", objP, "map") == 1 })
 	hasVal := func(pa *Path) int { return guardPol(pa, "has", objP, TM(mStr("$value"))) }
 	pr.all("$decode without $value is an error", selectPaths(host, func(pa *Path) bool { return hasVal(pa) == -1 }), "ErrInvalidType", fails("ErrInvalidType", "a host without $value"))
